@@ -269,7 +269,56 @@ fn c03_judge(ctx: &mut Ctx, c: &CaseReq, ex: &Exchange, parsed: Option<Parsed>, 
 
 // ---------------------------------------------------------------------------------- C13
 
+/// validate() looks at the rule as it is NOW: examples pushed, removed or replaced through the public
+/// fields after an earlier (successful or failed) validate() are judged like any others, on the rule
+/// itself, on a clone and on the optimised rule.
+fn c13_edits(ctx: &mut Ctx) {
+    let text = "detection:\n  A:\n    foo: bar\n  condition: A\ntrue_positives:\n- foo: bar\ntrue_negatives:\n- foo: baz\n";
+    let y = |t: &str| -> Yaml { serde_yaml::from_str(t).expect("yaml") };
+    let dummy = Exchange { line: "validate-after-edit".into(), imp: String::new(), model: String::new(), agree: true, supported: false };
+    for mask in [0u64, 1, 15, 14] {
+        let fresh = || -> Option<tau_engine::Rule> {
+            let r = tau_engine::Rule::from_str(text).ok()?;
+            Some(if mask == 0 { r } else { r.optimise(crate::implside::opts(mask)) })
+        };
+        // (edit, expected validity after the edit)
+        let edits: Vec<(&str, Box<dyn Fn(&mut tau_engine::Rule)>, bool)> = vec![
+            ("push a true positive that does not match", Box::new(|r: &mut tau_engine::Rule| r.true_positives.push(serde_yaml::from_str("{foo: nope}").unwrap())), false),
+            ("push a true negative that matches", Box::new(|r: &mut tau_engine::Rule| r.true_negatives.push(serde_yaml::from_str("{foo: bar}").unwrap())), false),
+            ("push a true positive that is not a mapping", Box::new(|r: &mut tau_engine::Rule| r.true_positives.push(Yaml::Null)), false),
+            ("push a matching true positive", Box::new(|r: &mut tau_engine::Rule| r.true_positives.push(serde_yaml::from_str("{foo: bar, x: 1}").unwrap())), true),
+            ("clear the examples", Box::new(|r: &mut tau_engine::Rule| { r.true_positives.clear(); r.true_negatives.clear(); }), true),
+        ];
+        for (what, edit, want_ok) in edits.iter() {
+            for first_ok in [true, false] {
+                ctx.evaluations += 1;
+                ctx.nontrivial.insert(hash_str(&format!("edit{}{}{}", mask, what, first_ok)));
+                let mut r = match fresh() { Some(r) => r, None => continue };
+                if !first_ok {
+                    r.true_negatives.push(y("{foo: bar}"));
+                }
+                let v1 = r.validate().is_ok();
+                if v1 != first_ok {
+                    ctx.violation("oracle", &format!("mask {}: validate() on the freshly loaded rule gives {}, expected {}", mask, v1, first_ok), &dummy, text, true);
+                    continue;
+                }
+                if !first_ok {
+                    r.true_negatives.pop();
+                }
+                edit(&mut r);
+                let v2 = r.validate().is_ok();
+                let v3 = r.clone().validate().is_ok();
+                let again = r.validate().is_ok();
+                if v2 != *want_ok || v3 != *want_ok || again != *want_ok {
+                    ctx.violation("oracle", &format!("mask {}: after an earlier validate() (= {}) and the edit `{}`, validate() gives {} (clone: {}, repeated: {}), the examples imply {}", mask, v1, what, v2, v3, again, want_ok), &dummy, text, true);
+                }
+            }
+        }
+    }
+}
+
 pub fn run_c13(ctx: &mut Ctx, _known: &Known) {
+    c13_edits(ctx);
     let n = budget(ctx, 2000, 40000);
     for i in 0..n {
         let mut r = case_rng(ctx, i);
@@ -598,6 +647,44 @@ pub fn run_c04(ctx: &mut Ctx, _known: &Known) {
         let k = 1 + r.below(7);
         let s: String = (0..k).map(|_| *r.pick(&pieces)).collect();
         layer_checks(ctx, &s);
+    }
+    // Rule::from_value on every YAML shape at the root (and one level down): an error value or a rule
+    {
+        use serde_yaml::value::{Tag, TaggedValue};
+        let tag = |v: Yaml| Yaml::Tagged(Box::new(TaggedValue { tag: Tag::new("t"), value: v }));
+        let good: Yaml = serde_yaml::from_str("detection:\n  A:\n    foo: bar\n  condition: A\ntrue_positives: []\ntrue_negatives: []\n").unwrap();
+        let mut roots: Vec<Yaml> = vec![
+            gen::ys("text"), gen::ys(""), Yaml::Bool(true), Yaml::Number(5.into()), Yaml::Number(2.5f64.into()), Yaml::Null,
+            Yaml::Sequence(vec![]), Yaml::Sequence(vec![good.clone()]), Yaml::Sequence(vec![gen::ys("a"), Yaml::Null]),
+            tag(gen::ys("x")), tag(good.clone()), tag(Yaml::Sequence(vec![])), tag(Yaml::Null), tag(tag(Yaml::Bool(false))),
+            Yaml::Mapping(serde_yaml::Mapping::new()), map1y("detection", gen::ys("x")), map1y("detection", Yaml::Sequence(vec![])), map1y("detection", Yaml::Null),
+            map1y("true_positives", Yaml::Sequence(vec![])), map1y("optimised", Yaml::Bool(true)),
+        ];
+        // the good rule with one field replaced by each odd shape
+        for key in ["detection", "true_positives", "true_negatives", "optimised"] {
+            for odd in [gen::ys("x"), Yaml::Bool(true), Yaml::Number(1.into()), Yaml::Null, Yaml::Sequence(vec![gen::ys("x")]), tag(gen::ys("x")), Yaml::Mapping(serde_yaml::Mapping::new())] {
+                let mut m = good.as_mapping().unwrap().clone();
+                m.insert(gen::ys(key), odd);
+                roots.push(Yaml::Mapping(m));
+            }
+            let mut m = good.as_mapping().unwrap().clone();
+            m.remove(gen::ys(key));
+            roots.push(Yaml::Mapping(m));
+        }
+        for v in roots {
+            ctx.evaluations += 1;
+            let shown = serde_yaml::to_string(&v).unwrap_or_default();
+            ctx.distinct.insert(hash_str(&format!("from_value {}", shown)));
+            let r = std::panic::catch_unwind(|| tau_engine::Rule::from_value(v.clone()).map(|r| r.validate().is_ok()));
+            match r {
+                Ok(Ok(_)) => { ctx.nontrivial.insert(hash_str(&shown)); }
+                Ok(Err(_)) => {}
+                Err(_) => {
+                    let ex = Exchange { line: format!("from_value {}", hash_str(&shown)), imp: "PANIC".into(), model: String::new(), agree: true, supported: false };
+                    ctx.violation("oracle", &format!("Rule::from_value panics on the YAML value {}", trunc(&shown.replace('\n', " "), 200)), &ex, &shown, true);
+                }
+            }
+        }
     }
     // rule TEXT that is not well-formed YAML (or is several documents): Rule::from_str returns
     // (implementation only, under the watchdog)
